@@ -21,14 +21,16 @@ vlib.standard_check({
     "harness": "c18",
     "translators": [translate_bitmanip.run],
     "gen_files": ["lean/GateryModel/Gen/BitManip.lean"],
-    "streams": {"quick": [[2000, 50]], "thorough": [[20000, 50], [2000, 400], [20000, 12]]},
-    "search": [[20000, 50], [5000, 200]],
+    "streams": {"quick": [[2000, 50], [5000, 0]], "thorough": [[20000, 50], [2000, 400], [20000, 12], [300000, 0]]},
+    "search": [[20000, 50], [5000, 200], [100000, 0]],
     "signature": signature,
     "eval_key": "ops",
-    "nontrivial": lambda t: t.get("ops", 0) - t.get("hist", {}).get("resize", 0) - t.get("hist", {}).get("get", 0),
+    "nontrivial": lambda t: t.get("ops", 0) - t.get("hist", {}).get("resize", 0) - t.get("hist", {}).get("get", 0) - t.get("hist", {}).get("formatBinary", 0) - t.get("hist", {}).get("formatHex", 0),
     "rule": "operation sequences on 4 registers of BitVectorState<Default|Extended>; offsets biased to {0,1,7,8,31,32,56,63} mod 64 over 5 words, "
             "sizes biased to {0,1,7,8,63,64,65,127,128,129}; non-trivial = every op other than resize/get (each is compared word-for-word with the model "
-            "and bit-for-bit with the array spec)",
+            "and bit-for-bit with the array spec); literal stream (ops = 0): parseBitVector on generated b/o/x/d/s literals with optional widths "
+            "(valid, too narrow, malformed, 20..50 digits) compared with the model (result words or error class) and with the digit-by-digit grammar spec, "
+            "then operator<< in binary and hex against the model",
     "trusted_base": ["Lean 4.33 kernel", "axioms: propext, Classical.choice, Quot.sound only (audited per theorem)",
                      "tools/translate_bitmanip.py (BitManipulation.h leaf functions -> Gen/BitManip.lean)",
                      "harness/c18.cpp + Driver/C18.lean line protocol", "boost cpp_int import/export_bits modelled as Nat<->little-endian words"],
